@@ -911,6 +911,7 @@ pub fn main(args: &util::Args) {
                 wildcard_arrays: false,
                 nested_patterns: true,
                 src_forms: true,
+                cov_shapes: i % 5 == 2,
                 ..Default::default()
             };
             let (src, feats) = crate::progen::gen_program(&mut rng, cfg);
